@@ -2,6 +2,9 @@
 # Regenerates MANIFEST.json from the table below (single source of truth).
 import json
 CHECKS = {
+ "C04": dict(cat="exploration", technique="runtime monitor: deterministic scheduler over the loader's futures and executor tasks (FIFO/LIFO/random/DFS enumeration) + hasher variation in fresh threads, canonical outcome equality",
+   text="The real build runs under a hand-written single-threaded scheduler that gates every loader future (released one at a time, optionally after extra Pending polls) and treats tasks handed to the Executor as separate units; release orders are enumerated depth-first per world up to a budget (247 of 400 worlds exhaustively in quick) and sampled randomly; the same world is also rebuilt in fresh OS threads (fresh hasher keys). Every execution must equal the reference (default executor under tokio) in serialised graph, error entries with referrers, package tables, lockfile writes.",
+   note="in-process variation only; loader answers fixed at call time", ref="§3 C04"),
  "C03": dict(cat="fault_enumeration", technique="runtime monitor: exhaustive single-fault enumeration over the recorded load trace + random combinations, differential against the fault-free run",
    text="For every generated module world and registry world the fault-free load trace is recorded, then one real build is run per (load call x fault kind): 16 loader response kinds and 21 package-metadata / version-manifest corruptions, plus random 2-3 fault combinations and npm resolver failures (per requirement, dependency graph). Oracles: no panic, serialisable with no pending entry, every requested specifier settled, imported failures carry a referrer, entries not depending on a faulted call unchanged, npm failures observable. ~20 000 faulted builds quick.",
    note="debug-assertion panic for a module answered with a final specifier inside the registry is a known finding; release-profile behaviour is exercised by the thorough tier", ref="§3 C03"),
